@@ -26,7 +26,12 @@ def fixed_cases():
     T = driver.t_struct([("a", driver.t_float((-10.0, 10.0))), ("b", driver.t_int((0, 3)))])
     c, v, f = gen.col, gen.val, gen.fn
     i, fl = driver.v_int, driver.v_float
+    TB = driver.t_struct([("flag", driver.t_bool((False, False), (True, True))), ("a", driver.t_float((-10.0, 10.0)))])
+    TB2 = driver.t_struct([("flag", driver.t_bool((False, True))), ("g", driver.t_opt(driver.t_bool((False, False), (True, True)))), ("a", driver.t_int((-5, 5)))])
     return [
+        # a bare boolean column as predicate (explicit value set and interval), alone and under AND / OR / NOT
+        (TB, c("flag")), (TB, f("And", c("flag"), f("Gt", c("a"), v(i(0))))), (TB, f("Or", c("flag"), f("Gt", c("a"), v(i(0))))), (TB, f("Not", c("flag"))),
+        (TB2, c("flag")), (TB2, f("Or", c("g"), f("Lt", c("a"), v(i(0))))), (TB2, f("And", f("Not", c("g")), c("flag"))),
         (T, f("Or", f("And", f("Gt", c("a"), v(i(5))), f("Lt", c("b"), v(i(3)))), f("Gt", c("a"), v(i(0))))),
         (T, f("Or", f("Gt", c("a"), v(i(5))), f("Not", f("Lt", c("b"), v(i(3)))))),
         (T, f("Or", f("Gt", c("a"), v(i(5))), v(driver.v_bool(False)))),
@@ -248,6 +253,12 @@ def main():
             ck.violation(key, "row %s of %s satisfies %s (SQLite: %s = 1) but is not in the narrowed type %s" % (
                 shown, json.dumps(T)[:200], gen.show(p), info["sql"], info["s2"]), dict(T=T, pred=p, row=shown, narrowed=T2, sql=info["sql"]))
         else:
+            has_float_ = any(gen.base(ft)["t"] == "Float" for _, ft in T["fields"]) or '"Float"' in json.dumps(p)
+            if has_float_ and any(c is not None and c[0] == "i64" and abs(int(c[1])) >= (1 << 53) for c in row.values()):
+                # an integer beyond 2^53 compared with a float: the encoder promotes through f64 (as Expr::value does), SQLite
+                # compares exactly; the region is outside the claim (C12's rounding finding)
+                ck.note("beyond 2^53 (outside the claim): row %s pred %s: sqlite=%s in_T=%s in_T'=%s" % (shown, gen.show(p), sat_sql, in_T, in_T2))
+                continue
             ck.inconclusive("counterexample %s did not reproduce: row %s pred %s: sqlite=%s in_T=%s in_T'=%s" % (r["id"], shown, gen.show(p), sat_sql, in_T, in_T2))
     d.close()
     if n_w_sat == 0:
